@@ -29,15 +29,15 @@ def cancel(c, kind="c", nowait=False):
     return "cancel/%s%d" % (kind, c) + ("/nowait" if nowait else "")
 
 
-def feed_call(seq, nonce, meth=M, pad=0, ch=None):
+def feed_call(seq, nonce, meth=M, pad=0, ch=None, tags=None):
     ch = ch or mp.Chooser()
-    c = frames.content([0, seq, ("s", meth), arg(nonce, pad)], ch)
+    c = frames.content([0, seq, ("s", meth), arg(nonce, pad)] + ([tags] if tags is not None else []), ch)
     return "feed/" + frames.frame(c, ch).hex()
 
 
-def feed_notify(nonce, meth=M, pad=0):
+def feed_notify(nonce, meth=M, pad=0, tags=None):
     ch = mp.Chooser()
-    c = frames.content([2, ("s", meth), arg(nonce, pad)], ch)
+    c = frames.content([2, ("s", meth), arg(nonce, pad)] + ([tags] if tags is not None else []), ch)
     return "feed/" + frames.frame(c, ch).hex()
 
 
